@@ -304,13 +304,21 @@ def axiom_audit(mod):
 
 # --------------------------------------------------------------------------- streams
 
+MAX_CRASHES_PER_SHARD = 6
+
+
 def run_lines(cmd, lines, crash_token, timeout_per_chunk=1800, env=None):
     """Feed op lines to a line-protocol process; on a crash record `crash_token` for the op that
-    killed it and restart on the rest (crash isolation)."""
+    killed it and restart on the rest (crash isolation). After MAX_CRASHES_PER_SHARD crashes the
+    remaining ops of this shard are answered SKIPPED (the crashes already decide the outcome)."""
     outs = []
     i = 0
     restarts = 0
+    crashes = 0
     while i < len(lines):
+        if crashes >= MAX_CRASHES_PER_SHARD:
+            outs.extend(["SKIPPED"] * (len(lines) - i))
+            break
         chunk = lines[i:]
         try:
             p = subprocess.run(cmd, input="\n".join(chunk) + "\n", stdout=subprocess.PIPE, stderr=subprocess.PIPE,
@@ -331,6 +339,7 @@ def run_lines(cmd, lines, crash_token, timeout_per_chunk=1800, env=None):
             if i < len(lines):
                 outs.append("TIMEOUT")
                 i += 1
+                crashes += 1
             restarts += 1
             continue
         if "##RESTART##" in got:
@@ -338,6 +347,7 @@ def run_lines(cmd, lines, crash_token, timeout_per_chunk=1800, env=None):
             outs.extend(got[:k])
             i += k
             restarts += 1
+            crashes += 1
             continue
         if len(got) >= len(chunk):
             outs.extend(got[:len(chunk)])
@@ -348,6 +358,7 @@ def run_lines(cmd, lines, crash_token, timeout_per_chunk=1800, env=None):
             outs.append(crash_token)
             i += 1
             restarts += 1
+            crashes += 1
             if restarts > 200:
                 raise MachineryError("too many worker crashes running %s" % cmd[0])
     return outs
@@ -406,6 +417,7 @@ class StreamResult:
         self.verdicts = {}
         self.samples = []
         self.impl_crashes = 0
+        self.skipped = 0
         self.dist = {}
         self.wall = 0.0
 
@@ -440,6 +452,8 @@ def run_stream(stream, seed, n, oracle_fns, shards=None, prep=None):
     olines, oidx = [], []
     for k, o in enumerate(uniq):
         fn = o.split("\t", 1)[0]
+        if impl[k] == "SKIPPED":
+            continue
         if fn in oracle_fns:
             rest = o.split("\t", 1)[1] if "\t" in o else ""
             olines.append("o." + fn + "\t" + rest + "\t" + impl[k])
@@ -454,6 +468,9 @@ def run_stream(stream, seed, n, oracle_fns, shards=None, prep=None):
     triv = PROPS.TRIVIAL_OUTPUTS
     for k, o in enumerate(uniq):
         fn = o.split("\t", 1)[0]
+        if impl[k] == "SKIPPED":
+            sr.skipped += 1
+            continue
         sr.dist[fn] = sr.dist.get(fn, 0) + 1
         if model[k] in ("bad-op", "MODEL-CRASH"):
             raise MachineryError("stream %s: model driver answered %s for op %r" % (stream, model[k], o[:300]))
@@ -728,7 +745,7 @@ def check_property(prop, tier, seed):
             "samples": samples,
             "streams": [{"name": sr.name, "ops": sr.ops, "distinct": sr.distinct, "nontrivial": sr.nontrivial,
                          "diffs": len(sr.diffs), "oracle_verdicts": sr.verdicts, "drift_unspecified": sr.drift,
-                         "impl_crashes": sr.impl_crashes, "op_distribution": sr.dist, "wall_s": round(sr.wall, 2)} for sr in results],
+                         "impl_crashes": sr.impl_crashes, "skipped_after_crashes": sr.skipped, "op_distribution": sr.dist, "wall_s": round(sr.wall, 2)} for sr in results],
             "repo_tree_hash": bs.tree,
             "known_findings_hit": known_hits,
             "broken": broken,
